@@ -5,14 +5,15 @@ from .. import tlc, gen, common
 EQSETS = [["s", "f", "k", "u"], ["s"], ["s", "k"], ["k", "f"], ["f", "s"], ["u"], ["u", "s"]]
 
 
-def consts(start4, dt4, n, kv='{0,3,5}', ops='{"Step","Steps","Stream","Batch"}'):
+def consts(start4, dt4, n, kv='{0,3,5}', ops='{"Step","Steps","Stream","Batch","Restart"}'):
     return dict(Start4=str(start4), Dt4=str(dt4), N=str(n), K0='1', KVals=kv, Ops=ops)
 
 
-def build(start4, dt4, n):
+def build(start4, dt4, n, model_dt4=None):
+    """model_dt4: the model is built with another (coarser) dt; the run's dt then arrives through begin_session settings"""
     common.use_repo()
     from BPTK_Py import Model
-    m = Model(starttime=start4 / 4.0, stoptime=(start4 + n * dt4) / 4.0, dt=dt4 / 4.0, name="sess")
+    m = Model(starttime=start4 / 4.0, stoptime=(start4 + n * dt4) / 4.0, dt=(model_dt4 or dt4) / 4.0, name="sess")
     k = m.constant("k"); k.equation = 1.0
     f = m.flow("f"); f.equation = k
     s = m.stock("s"); s.initial_value = 0.0; s.equation = f
@@ -80,17 +81,26 @@ def settings(v):
     return {"sm": {"base": {"constants": {"k": float(v)}}}} if v > 0 else {}
 
 
-def replay_api(hist, start4, dt4, n, eqs):
+def replay_api(hist, start4, dt4, n, eqs, dt_by_settings=False):
     BPTK_Py = common.use_repo()
     b = BPTK_Py.bptk()
     try:
-        b.register_model(build(start4, dt4, n), scenario_manager="sm", scenario={"base": {"constants": {"k": 1.0}}, "zz": {"constants": {"k": K_SHADOW}}})
+        b.register_model(build(start4, dt4, n, model_dt4=2 * dt4 if dt_by_settings else None), scenario_manager="sm",
+                         scenario={"base": {"constants": {"k": 1.0}}, "zz": {"constants": {"k": K_SHADOW}}})
         START[0] = start4 / 4.0
         if hist and hist[0]["op"] == "Batch":       # the memo of the scenario is full when the session begins
             b.run_scenarios(scenario_managers=["sm"], scenarios=["base", "zz"], equations=["s", "f", "k", "u"], return_format="df")
-        b.begin_session(scenarios=["base", "zz"], scenario_managers=["sm"], equations=eqs)
+        def begin(first):
+            rs = {"runspecs": {"dt": dt4 / 4.0}}
+            b.begin_session(scenarios=["base", "zz"], scenario_managers=["sm"], equations=eqs,
+                            settings=({"sm": {"base": dict(rs), "zz": dict(rs)}} if dt_by_settings and first else {}))
+        begin(True)
         for h in hist:
             if h["op"] == "Batch":
+                continue
+            if h["op"] == "Restart":
+                b.end_session()
+                begin(False)
                 continue
             got = [proj_step(b.run_step(settings=settings(h["set"])), eqs) for _ in range(h["n"])]
             bad = rows_equal(got, h["rows"], eqs)
@@ -147,6 +157,12 @@ def replay_rest(hist, start4, dt4, n, eqs, flat):
         for h in hist:
             if h["op"] == "Batch":
                 c.post("/run", data=json.dumps({"scenario_managers": ["sm"], "scenarios": ["base", "zz"], "equations": eqs}), **hdr)
+                continue
+            if h["op"] == "Restart":
+                c.post("/%s/end-session" % uid, **hdr)
+                r = c.post("/%s/begin-session" % uid, data=json.dumps({"scenario_managers": ["sm"], "scenarios": ["base", "zz"], "equations": eqs}), **hdr)
+                if r.status_code != 200:
+                    return "begin-session (second session): %s" % r.status_code
                 continue
             body = {"settings": settings(h["set"])}
             if flat:
@@ -246,6 +262,12 @@ def run(tier, replay_file=None):
         # all partitions of the run into run-step / run-steps / stream-steps calls with per-step settings, up to 3-4 calls
         hs, _ = gen.histories("Session", consts(start4, dt4, n), 3 if quick else 4)
         hs = rng.sample(hs, min(len(hs), 60 if quick else 600))
+        # two sessions one after the other that send the SAME step settings: every history of the shape
+        # Steps(k:=v) ; Restart ; Steps(k:=v) ; Step
+        hr, _ = gen.histories("Session", consts(start4, dt4, n), 4, extra_cfg={"action_constraints": ["MC_Twice"]},
+                              defs='MC_Twice == LET m == Len(hist\') h == hist\'[m] IN /\\ (m = 2 => h.op = "Restart") /\\ (m # 2 => h.op \\in {"Step", "Steps"})\n'
+                                   '               /\\ (m = 3 => h.set = hist\'[1].set /\\ h.set > 0)\n')
+        hs = hs + (hr if not quick else rng.sample(hr, min(len(hr), 12)))
         bad = batch_formats(start4, dt4, n)
         R.add("traces_validated_against_impl")
         if bad:
@@ -254,7 +276,7 @@ def run(tier, replay_file=None):
             eqs = EQSETS[j % len(EQSETS)]
             info = {"runspec": {"start": start4 / 4, "stop": (start4 + n * dt4) / 4, "dt": dt4 / 4}, "equations": eqs,
                     "calls": [{a: b for a, b in h.items() if a in ("op", "n", "set")} for h in hist]}
-            for name, fn in (("api", lambda: replay_api(hist, start4, dt4, n, eqs)), ("rest", lambda: replay_rest(hist, start4, dt4, n, eqs, flat=False)),
+            for name, fn in (("api", lambda: replay_api(hist, start4, dt4, n, eqs, dt_by_settings=(j % 4 == 1))), ("rest", lambda: replay_rest(hist, start4, dt4, n, eqs, flat=False)),
                              ("rest-flat", lambda: replay_rest(hist, start4, dt4, n, eqs, flat=True))):
                 if name != "api" and j % 3 != 0:
                     continue
